@@ -53,7 +53,8 @@ def report_unproved(run, failed, found_input, what):
                           what, o.clause, o.status, o.backend, len(failed)),
                       {"obligation": o.name, "clause": o.clause, "status": o.status, "backend": o.backend,
                        "goal": str(o.goal)[:3000], "path_condition": [str(c)[:300] for c in o.pc][:40],
-                       "model": str(o.model)[:3000] if o.model is not None else None},
+                       "model": str(o.model)[:3000] if o.model is not None else None,
+                       "model_kind": ("candidate (quantified facts dropped; not conclusive)" if getattr(o, "model_is_candidate", False) else "solver model") if o.model is not None else None},
                       no_input=True)
 
 
@@ -155,6 +156,25 @@ def check(run):
     r2 = bounded_search_gf(run, tier)
     report_unproved(run, failed2, bool(r2["failures"]), "get_functions")
     sfailed = D.structural_spmd(run, ["fitting/test_all.py", "fitting/test_all_Fisher.py", "fitting/match.py", "fitting/combine_DL.py"], "fitting")
+    # --- deductive: the consumers of the slice (row i of every per-rank table <-> function data_start + i)
+    from contracts import c_stages, c_fisher
+    cfailed = []
+    for rel, fn, mk, tag, note in (
+            ("fitting/match.py", "main", c_stages.match_prologue_contract, "prologue", "region: from the get_functions call to the allocation of the per-rank tables"),
+            ("fitting/combine_DL.py", "main", c_stages.combine_prologue_contract, "prologue", "region: from the get_functions call to xarr_proc"),
+            ("fitting/test_all_Fisher.py", "load_loglike", (lambda: c_stages.load_loglike_contract(True)), "split=True", "whole function"),
+            ("fitting/test_all_Fisher.py", "load_loglike", (lambda: c_stages.load_loglike_contract(False)), "split=False", "whole function"),
+            ("fitting/test_all_Fisher.py", "main", (lambda: c_fisher.main_rows_contract("ok")), "rows/ok", "region: allocation of the per-rank tables + loop body (see C07)")):
+        st_, f_, _e = D.verify_function(run, rel, fn, mk, timeout_ms=8000, tag=tag, note=note)
+        cfailed += f_
+    if D.canary(run, "fitting/combine_DL.py", "main", c_stages.combine_prologue_contract) is False:
+        raise RuntimeError("canary verified: engine vacuous on the combine prologue")
+
+    def concat_only_main(fnode):
+        return c_stages.concat_obligations(fnode) if fnode.name == "main" else []
+    sfailed2 = D.structural_generic(run, ["fitting/test_all.py", "fitting/test_all_Fisher.py", "fitting/match.py", "fitting/combine_DL.py"], concat_only_main,
+                                    "contracts.c_stages.concat_obligations (AST)", "per-rank output files carry the rank; rank 0 joins them with cat $(find | sort -V) > out and removes them")
+    sfailed = list(sfailed) + list(sfailed2)
     # --- directory protocol of the Likelihood constructor (rely/guarantee: other ranks may create the
     #     directory at any time) -- replayed on the real constructor
     r3 = run.harness("rt_c14.py", {"mode": "mkdir_race"})
@@ -166,6 +186,7 @@ def check(run):
                       {"harness": "rt_c14.py", "payload": {"mode": "mkdir_race"}})
     # --- stages on the stand-in
     stage_rows_check(run, tier)
+    report_unproved(run, cfailed, bool(run.violations), "consumers of the slice (match / combine prologue, load_loglike, Fisher rows)")
     if sfailed and not run.violations:
         fq, desc, line = sfailed[0]
         run.violation("spmd:%s:%s" % (fq.split("::")[1], desc.split(" at line")[0]), "%s: structural SPMD obligation no longer holds: %s (%d failed)" % (fq, desc, len(sfailed)),
@@ -173,7 +194,9 @@ def check(run):
     expl = ("Deductive: split_idx and get_functions verified against their contracts for all N, P, rank (unbounded), plus the "
             "tiling lemmas over the contracts and the rank-0-only/barrier protocol of get_functions' directory creation. "
             "Bounded (not counted as proved): runtime contract sweep of both functions, the constructor race replay, and the four "
-            "fitting stages on 1..16 forked ranks with row-count/row-alignment checks. Consumer alignment inside the four main() "
-            "functions (same (start,end) for every per-function array, per-rank file names, cat | sort -V) is covered only by the "
-            "bounded stage runs.")
+            "fitting stages on 1..16 forked ranks with row-count/row-alignment checks. Consumer alignment is under contract as well: match.main and combine_DL.main apply "
+            "the (data_start, data_end) of get_functions to every per-function array (chain i, match i, xarr_proc[i] belong to function data_start + i; every per-rank table has "
+            "data_end - data_start rows), load_loglike returns rows data_start.. of the result file, the loop body of test_all_Fisher.main fills row i from function i; "
+            "structurally: every stage writes per-rank files that carry the rank, rank 0 joins them with cat $(find | sort -V) > out (A-shell: version sort = rank order) and removes them. "
+            "test_all.main's loop body (row i from optimise_fun(fcn_list_proc[i])) is covered by the bounded stage runs only.")
     return run.finish("proof", expl, CHECKER)
